@@ -70,12 +70,18 @@ def features(s):
     return f
 
 
-def sig_of(detail, reason, cmd, read_refused=False):
-    """signature = command kind : obligation of the monitor that failed (: input class).  The input class
-    `config-read-refused` marks a command during which the environment refused a blob read (fault kind read)."""
+def sig_of(detail, reason, cmd, read_refused=False, bare_ann=False):
+    """signature = command kind : obligation of the monitor that failed (: input class).  Input classes:
+    `config-read-refused` a command during which the environment refused a blob read (fault kind read);
+    `annotation-without-value` the trace used a --desc-annotation without value before / in this command."""
     d = (detail or "").strip('"') or reason
     op = cmd["op"] if cmd else "setup"
-    return "x03:%s:%s%s" % (op, d, ":config-read-refused" if read_refused else "")
+    cls = ":config-read-refused" if read_refused else ":annotation-without-value" if bare_ann else ""
+    return "x03:%s:%s%s" % (op, d, cls)
+
+
+def bare_ann(s):
+    return any(f["v"] == "" for c in s["cmds"] for f in c["dann"])
 
 
 def read_fault(s):
@@ -101,8 +107,11 @@ def run(ctx):
     mc.append(ctx.tlc("IndexEditMC", "X03_mc_platlookup_fixed.cfg", label="repaired platform lookup, refused reads"))
     states = sum(r["distinct"] for r in mc)
     trans = sum(r["generated"] for r in mc)
-    for cfg in ("X03_mc_known_descplat.cfg", "X03_mc_known_platlookup.cfg", "X03_mc_sw_putfirst.cfg", "X03_mc_sw_dedup.cfg",
-                "X03_mc_sw_delone.cfg"):
+    mc.append(ctx.tlc("IndexEditMC", "X03_mc_equal_fixed.cfg", label="repaired annotation comparison of descriptor.Equal"))
+    states = sum(r["distinct"] for r in mc)
+    trans = sum(r["generated"] for r in mc)
+    for cfg in ("X03_mc_known_descplat.cfg", "X03_mc_known_platlookup.cfg", "X03_mc_known_equal.cfg", "X03_mc_sw_putfirst.cfg",
+                "X03_mc_sw_dedup.cfg", "X03_mc_sw_delone.cfg"):
         r = ctx.tlc("IndexEditMC", cfg, allow_violation=True, label="expected counterexample " + cfg, record=False)
         if not r["violated"]:
             raise vlib.ToolError("model sanity: %s did not violate the monitor" % cfg)
@@ -234,7 +243,9 @@ def run(ctx):
     # traces of the known finding X03-1 (unparsable --desc-platform) are validated in a batch of their own, so
     # that the large batch passes in one TLC run
     # (the same for X03-2: a refused config read)
-    kf = [t for t in traces if any(bad_dplat(world, c) for c in t["scenario"]["cmds"]) or read_fault(t["scenario"])]
+    # (and X03-3: an annotation without value)
+    kf = [t for t in traces if any(bad_dplat(world, c) for c in t["scenario"]["cmds"]) or read_fault(t["scenario"])
+          or bare_ann(t["scenario"])]
     rest = [t for t in traces if t not in kf]
     accepted, rejected = ctx.validate_batch("IndexEditTrace", "X03_trace.cfg", rest, timeout=3000, max_reports=40)
     if kf:
@@ -246,13 +257,15 @@ def run(ctx):
         evs = t["events"]
         cmd = None
         ncmd = 0
+        bare = False
         for e in evs[:max(r["line"], 0) + 1]:
             if e["ev"] == "cmd":
                 cmd = e
                 ncmd += 1
+                bare = bare or any(f["v"] == "" for f in e["dann"])
         done = next((e for e in evs[max(r["line"], 0):] if e["ev"] == "done"), {})
         rr = read_fault(t["scenario"]) and t["scenario"]["fault"]["cmd"] == ncmd and done.get("faulted") == 1
-        sig = sig_of(r["detail"], r["reason"], cmd, rr)
+        sig = sig_of(r["detail"], r["reason"], cmd, rr, bare)
         what = "%s at event %d (%s) of trace %s: regctl %s" % (
             (r["detail"] or r["reason"]), r["line"], (r["event"] or {}).get("ev"), t["id"], (cmd or {}).get("argv", ""))
         ctx.report(sig, what, {"scenario": t["scenario"], "header": t["header"], "events": evs, "rejected_at": r["line"],
